@@ -23,7 +23,7 @@ def render(entries):
 class C07(Check):
     prop = 'C07'
     rule = ('well-formed stream: tables of 0-10 entries at random slot positions, names of every length 1-8 (real ExeFS '
-            'names and random [a-z.A-Z0-9_]), sizes {0,1,0x1FF,0x200,random}, 0x200-aligned offsets, random hashes, '
+            'names and random [a-z.A-Z0-9_], plus stored decoys N.bin next to N), sizes {0,1,0x1FF,0x200,random}, 0x200-aligned offsets, random hashes, '
             'optionally at a non-zero start offset inside a larger file; header built by the Lean spec `Exefs.build`; '
             'every stored name is opened as N, /N, N.bin, /N.bin and read at random (offset, length); '
             'malformed stream: unaligned offsets, bytes >= 0x80 in names (single bytes and well-formed UTF-8 sequences), duplicate names, short headers, random '
@@ -54,6 +54,14 @@ class C07(Check):
             data_off += (size + 0x1FF) // 0x200 * 0x200
             if rng.chance(0.2):
                 data_off += 0x200
+        # decoys: a stored name that IS an alias spelling of another stored name ('data' next to 'data.bin'); the aliases of
+        # 'data' must keep resolving to 'data' (names ending in '.bin' have no aliases of their own, as in the property)
+        free = [k for k in range(10) if table[k] is None]
+        short = [t[0] for t in table if t is not None and len(t[0]) <= 4]
+        if free and short and rng.chance(0.35):
+            size = rng.pick([1, 0x200, rng.randint(1, 0x300)])
+            table[rng.pick(free)] = [rng.pick(short) + rng.pick([b'.bin', b'.bin', b'.BIN']), data_off, size, rng.rbytes(32)]
+            data_off += (size + 0x1FF) // 0x200 * 0x200
         case = {'table': table, 'start': rng.pick([0, 0, 0x10, 0x1234]), 'data': rng.rbytes(min(data_off, 0x3000) + rng.pick([0, 7])),
                 'mut': None, 'seed': rng.getrandbits(32)}
         if malformed:
@@ -135,6 +143,9 @@ class C07(Check):
         if rd is not None:
             stored = [t for t in table if t is not None] if wf else []
             for t in stored:
+                if t[0].lower().endswith(b'.bin'):
+                    info['decoy: stored name that is an alias spelling of another'] = 1
+                    continue
                 name = t[0].decode('ascii')
                 lo = case['start'] + 0x200 + t[1]
                 content = file_bytes[lo:lo + t[2]]
